@@ -70,8 +70,9 @@ End Labels.
 (* label strings as byte lists *)
 Definition s_ (l : list Z) := l.
 
-Definition verify_v23 (v3 : bool) (x_secret : Fr) (vbytes pbytes : list Z) (pis : list Fr)
-                      (labels : list (list Z)) : verdict * list Fr :=
+(* also returns the discrepancy point  x*left + right  of the final check (identity iff accepted) *)
+Definition verify_v23_gen (v3 : bool) (x_secret : Fr) (vbytes pbytes : list Z) (pis : list Fr)
+                      (labels : list (list Z)) : verdict * list Fr * g1 :=
   let lab := fun i => nth i labels [] in
   (* ---- verifier bytes ---- *)
   let label_len := Z.to_nat (be64 vbytes) in
@@ -88,7 +89,7 @@ Definition verify_v23 (v3 : bool) (x_secret : Fr) (vbytes pbytes : list Z) (pis 
   let vk_raw := split48 15%nat (drop 8%nat vk) in
   match decode_points 15%nat (drop 8%nat vk), g1_decompress (take 48%nat ok), decode_points 11%nat pbytes, decode_scalars 15%nat (drop 528%nat pbytes) with
   | Some vkp, Some g, Some pp, Some ev =>
-    if negb (Nat.eqb (length pis) npi) then (RejectPiLen, []) else
+    if negb (Nat.eqb (length pis) npi) then (RejectPiLen, [], g1_id) else
     let praw := split48 11%nat pbytes in
     (* VerifierKey order: q_m q_l q_r q_o q_f q_c q_arith q_logic q_range q_fixed q_var s1 s2 s3 s4 *)
     let q_m := 0%nat in let q_l := 1%nat in let q_r := 2%nat in let q_o := 3%nat in let q_f := 4%nat in
@@ -171,7 +172,7 @@ Definition verify_v23 (v3 : bool) (x_secret : Fr) (vbytes pbytes : list Z) (pis 
     let den0 := nF * (z - 1) in
     let nz := filter (fun '(_, e) => negb (feqb e 0)) (combine pi_idx pis) in
     let dens := map (fun '(i, _) => fpow (finv omega) (Z.to_N i) * z - 1) nz in
-    if feqb den0 0 || existsb (fun d => feqb d 0) dens then (Reject, chs) else
+    if feqb den0 0 || existsb (fun d => feqb d 0) dens then (Reject, chs, g1_id) else
     let l1 := z_h * finv den0 in
     let pi_eval := fsum_list (map (fun '((_, e), d) => finv d * e) (combine nz dens)) * z_h * finv nF in
     let r0 := pi_eval - l1 * (alpha * alpha)
@@ -208,9 +209,17 @@ Definition verify_v23 (v3 : bool) (x_secret : Fr) (vbytes pbytes : list Z) (pis 
         (g, - e_scalar); (nthp pp 9%nat, z); (nthp pp 10%nat, u * z * omega) ] in
     let right := g1_msm (map (fun '(P, s) => (P, val s)) terms) in
     let left := g1_neg (g1_add (nthp pp 9%nat) (g1_mul (nthp pp 10%nat) (val u))) in
-    if g1_is_id (g1_add (g1_mul left (val x_secret)) right) then (Accept, chs) else (Reject, chs)
-  | _, _, _, _ => (Malformed, [])
+    let disc := g1_add (g1_mul left (val x_secret)) right in
+    if g1_is_id disc then (Accept, chs, disc) else (Reject, chs, disc)
+  | _, _, _, _ => (Malformed, [], g1_id)
   end.
+
+Definition verify_v23 (v3 : bool) (x_secret : Fr) (vbytes pbytes : list Z) (pis : list Fr)
+                      (labels : list (list Z)) : verdict * list Fr :=
+  fst (verify_v23_gen v3 x_secret vbytes pbytes pis labels).
+
+Definition ref_discrepancy (v3 : bool) (x_secret : Fr) (vbytes pbytes : list Z) (pis : list Fr) : list Z :=
+  g1_compress (snd (verify_v23_gen v3 x_secret vbytes pbytes pis protocol_labels)).
 
 Definition ref_verify (v3 : bool) (x_secret : Fr) (vbytes pbytes : list Z) (pis : list Fr) : verdict * list Fr :=
   verify_v23 v3 x_secret vbytes pbytes pis protocol_labels.
